@@ -29,6 +29,7 @@ func (p *LockSeq) JSON() []byte {
 // step kinds of C18
 const (
 	LOpen        = "open"
+	LOpenRO      = "open-readonly" // like open, with Options.Readonly
 	LOpenWait    = "openwait"
 	LClose       = "close"
 	LTx          = "tx"
@@ -79,6 +80,7 @@ func RunC18(p *LockSeq) Result {
 	opts := txfile.Options{PageSize: p.PageSize, MaxSize: uint64(p.MaxPages) * uint64(p.PageSize)}
 
 	var f *txfile.File
+	var fRO bool // the open handle was opened with Options.Readonly
 	var good []byte // file content when it was last closed cleanly
 	counter := byte(0)
 	var lastWritten []byte
@@ -159,7 +161,7 @@ func RunC18(p *LockSeq) Result {
 			r := fail("open-after-release", "%s: Open took %v", why, d)
 			return &r
 		}
-		f = nf
+		f, fRO = nf, o.Readonly
 		return verify(f)
 	}
 	closeGood := func() *Result {
@@ -175,24 +177,44 @@ func RunC18(p *LockSeq) Result {
 		return nil
 	}
 
+	use := func(file *txfile.File) *Result {
+		if fRO {
+			return verify(file) // no write transaction on a handle that was opened read-only
+		}
+		return doTx(file)
+	}
 	for i, st := range p.Steps {
 		switch st {
-		case LOpen:
+		case LOpen, LOpenRO:
+			oo := opts
+			if st == LOpenRO {
+				oo.Readonly = true
+			}
 			if f == nil {
-				if r := mustOpen(fmt.Sprintf("step %d (path not open)", i), opts); r != nil {
+				if r := mustOpen(fmt.Sprintf("step %d (path not open, readonly=%v)", i, oo.Readonly), oo); r != nil {
 					return *r
 				}
 				c["open"]++
 			} else {
-				second, err := txfile.Open(path, 0o600, opts)
+				second, err := txfile.Open(path, 0o600, oo)
 				if err == nil {
 					second.Close()
-					return fail("lock-not-exclusive", "step %d: second Open of an open file succeeded", i)
+					return fail("lock-not-exclusive", "step %d: second Open (readonly=%v) of a file that is open (readonly=%v) succeeded", i, oo.Readonly, fRO)
 				}
 				if !txerr.Is(txfile.LockFailed, err) {
 					return fail("lock-kind", "step %d: second Open failed with %v, expected a lock error (LockFailed)", i, err)
 				}
 				c["second-open-rejected"]++
+				if oo.Readonly && fRO {
+					c["second-readonly-open-of-readonly-file-rejected"]++
+				}
+				if fRO {
+					if r := verify(f); r != nil {
+						r.V.Msg = "first (readonly) File after a rejected second Open: " + r.V.Msg
+						return *r
+					}
+					continue
+				}
 				if r := doTx(f); r != nil {
 					r.V.Msg = "first File after a rejected second Open: " + r.V.Msg
 					return *r
@@ -228,7 +250,7 @@ func RunC18(p *LockSeq) Result {
 				return fail("lock-wait", "step %d: Open with the wait flag failed instead of waiting: %v", i, r.err)
 			default:
 			}
-			if r := doTx(f); r != nil {
+			if r := use(f); r != nil {
 				return *r
 			}
 			if r := closeGood(); r != nil {
@@ -239,7 +261,7 @@ func RunC18(p *LockSeq) Result {
 				if r.err != nil {
 					return fail("lock-wait", "step %d: waiting Open failed after the first File was closed: %v", i, r.err)
 				}
-				f = r.f
+				f, fRO = r.f, false
 				if rr := verify(f); rr != nil {
 					return *rr
 				}
@@ -256,7 +278,7 @@ func RunC18(p *LockSeq) Result {
 			}
 		case LTx:
 			if f != nil {
-				if r := doTx(f); r != nil {
+				if r := use(f); r != nil {
 					return *r
 				}
 				c["tx"]++
